@@ -23,6 +23,8 @@ type MWSpec struct {
 type mwTrace struct {
 	mu     sync.Mutex
 	events []string
+	// dynamic type of the first result each middleware saw on the way out (last call)
+	resultTypes map[string]string
 }
 
 func (t *mwTrace) add(s string) {
@@ -82,6 +84,14 @@ func buildMW(specs []MWSpec, point string, trace *mwTrace, rewriteArgs ...bool) 
 				}
 				res := next(service, method, args)
 				trace.add("exit:" + name + tag)
+				if len(res) == 2 {
+					trace.mu.Lock()
+					if trace.resultTypes == nil {
+						trace.resultTypes = map[string]string{}
+					}
+					trace.resultTypes[name] = fmt.Sprintf("%T", res[0])
+					trace.mu.Unlock()
+				}
 				if rewrite {
 					if len(res) == 2 && res[1] == nil {
 						if s, ok := res[0].(string); ok {
@@ -114,6 +124,8 @@ type C16Case struct {
 	// Conc > 0: after the single call, that many goroutines invoke the same method at once,
 	// each with its own FContext (request header "who") and its own first string argument
 	Conc int `json:"conc,omitempty"`
+	// NilRet: the handler of a struct-returning method returns (nil, nil)
+	NilRet bool `json:"nil_ret,omitempty"`
 }
 
 func GenC16(t *rapid.T) C16Case {
@@ -152,6 +164,12 @@ func GenC16(t *rapid.T) C16Case {
 	if rapid.IntRange(0, 2).Draw(t, "conc?") == 0 {
 		c.Conc = rapid.IntRange(2, 8).Draw(t, "conc")
 	}
+	if mb.Method.Ret != nil {
+		switch p.KindOf(mb.Method.Ret) {
+		case "struct", "union", "exception":
+			c.NilRet = rapid.IntRange(0, 3).Draw(t, "nilret") == 0
+		}
+	}
 	return c
 }
 
@@ -177,10 +195,13 @@ func ClassifyC16(c C16Case) ev.Class {
 	if c.Conc > 0 {
 		labels = append(labels, "concurrent-calls-of-one-method")
 	}
+	if c.NilRet {
+		labels = append(labels, "handler-returns-nil-struct")
+	}
 	if mb.Owner != sb.IDLName {
 		labels = append(labels, "inherited-method")
 	}
-	key := fmt.Sprintf("%s|%s|%s|%v|%v|%v|%v|%d", Programs[sb.Prog].Hash, c.Name, c.Transport, c.Provider, c.Client, c.Processor, c.Added, c.Conc)
+	key := fmt.Sprintf("%s|%s|%s|%v|%v|%v|%v|%d", Programs[sb.Prog].Hash, c.Name, c.Transport, c.Provider, c.Client, c.Processor, c.Added, c.Conc) + fmt.Sprint(c.NilRet)
 	for _, a := range c.Args {
 		key += "|" + a.Canon()
 	}
@@ -217,6 +238,9 @@ func checkC16Inner(c C16Case) *ev.Failure {
 		trace.add("handler")
 		if ret == nil || c.Ret == nil {
 			return nil, nil
+		}
+		if c.NilRet && ret.Kind() == reflect.Ptr {
+			return reflect.Zero(ret).Interface(), nil
 		}
 		v, err := FromTree(p, m.Ret, ret, c.Ret)
 		if err != nil {
@@ -292,6 +316,24 @@ func checkC16Inner(c C16Case) *ev.Failure {
 	}
 	if rec.count() != 1 {
 		return ev.Failf("handler-count", "%s: handler invoked %d times%s", what, rec.count(), ctxText())
+	}
+	if c.NilRet && mt.NumOut() == 2 && mt.Out(0).Kind() == reflect.Ptr {
+		// the handler returned a nil pointer of the declared type: that is what every layer sees
+		wantT := mt.Out(0).String()
+		trace.mu.Lock()
+		rt := map[string]string{}
+		for k, v := range trace.resultTypes {
+			rt[k] = v
+		}
+		trace.mu.Unlock()
+		for name, got := range rt {
+			if got != wantT {
+				return ev.Failf("middleware-result-type", "%s: the handler returned a nil %s, middleware %s saw a result of dynamic type %s%s", what, wantT, name, got, ctxText())
+			}
+		}
+		if !out[0].IsNil() {
+			return ev.Failf("nil-result-changed", "%s: the handler returned nil, the caller got %v%s", what, out[0].Interface(), ctxText())
+		}
 	}
 	// expected nesting: later-listed wraps earlier; provider wraps constructor; AddMiddleware wraps the constructor list
 	clientChain := []string{}
